@@ -88,6 +88,12 @@ def gen_case(rng, tier):
         c["params"] = gen.gen_edge_params(rng, g)
     elif kind == "bi":
         c["sym"] = {"tumor_spread": rng.random() < 0.5, "lnl_spread": rng.random() < 0.5}
+        # the contralateral side parametrised directly afterwards (the class allows it; R6-C16-m1: a sampler that trusts
+        # the symmetry flags instead of the side's own parameters)
+        c["contra_direct"] = rng.random() < 0.4
+        if rng.random() < 0.3:
+            c["sym"] = {"tumor_spread": True, "lnl_spread": True}
+            c["contra_direct"] = True
     else:
         c["flags"] = {"use_mixing": rng.random() < 0.5, "lnl_sym": rng.random() < 0.5,
                       "marginalize_unknown": rng.random() < 0.5, "use_midext_evo": rng.random() < 0.6,
@@ -131,6 +137,9 @@ def _build(case):
         elif case.get("boundary") == "midext1":
             vals["midext_prob"] = 1.0
     m.set_params(**vals)
+    if kind == "bi" and case.get("contra_direct"):
+        leaf = {n: gen.gen_value(rng) for n in m.contra.get_params() if n.split("_")[0] not in case["dists"]}
+        m.contra.set_params(**leaf)
     return m
 
 
